@@ -205,7 +205,10 @@ IDEM_CORPUS = ['$ vec(\n  a, b, c\n) $\n', '$vec(\na, b)$\n', '$ mat(\n  1, 2; 3
                '$ f(\n) $\n', '$ f(\n  a\n) $\n', '$ f( a , b ) $\n']
 
 CORPUS = ['$mat(a // c\n)$\n', '$f(a // c\n)$\n', '$mat(a, b // c\n, d)$\n', '$mat(a /* c */)$\n', '$mat(1, 2; 3, 4)$\n', '$mat(// c\n a)$\n', '$f(a,// c\n b)$\n', '$ f(a // c\n ) $\n',
-          '$mat(a; // c\n)$\n', '$vec(a,\n b // c\n)$\n']
+          '$mat(a; // c\n)$\n', '$vec(a,\n b // c\n)$\n',
+          # the same inside lists that may be laid out flat
+          '#f($mat(a // c\n)$)\n', '#f($f(a,// c\n b)$, x)\n', '#($mat(a; // c\n)$, 1)\n', '$g(mat(a // c\n), b)$\n', '#f[$mat(a // c\n)$]\n', 'text $mat(a // c\n)$ more\n',
+          '$mat(a /* c */, b; /* d */ c)$\n', '#f($mat(a /* c */)$)\n']
 
 
 def native_sweep(S, prop):
